@@ -267,6 +267,16 @@ class ParProp(props.BaseProp):
                 if sorted(row) != list(range(len(c["xs"]))):
                     msgs.append("rayon %s source: the recorded schedule is not a permutation of the item indices "
                                 "(an item ran twice or not at all)" % which)
+            # failing items: the panic rayon re-raises is that of the LOWEST failing index (rayon::join's rule,
+            # the failure semantics of gather_par / run_plan in Model/ParFns.v)
+            if 63 not in by:
+                msgs.append("probe produced no failing-items observation")
+            else:
+                want_k = next((i for i, x in enumerate(c["xs"]) if x % 7 == 0), -1)
+                for which, k in zip(("Vec", "Range"), by[63][1][0]):
+                    if k != want_k:
+                        msgs.append("rayon %s source with failing items: the region re-raised the panic of item %d, "
+                                    "the serial loop (and the model) fail at item %d" % (which, k, want_k))
             return msgs
         ncalls = len([x for x in c["calls"] if not x.startswith("hammer")])
         rows = by[50][1] if 50 in by else []
